@@ -352,12 +352,14 @@ pub struct Cfg {
     pub nopre: bool,
     /// path of the verified reference solver: one small case in sixteen runs on it (partial models) instead of CaDiCaL
     pub external: Option<String>,
+    /// one small case in `ext_rate` runs on the external backend (default 8)
+    pub ext_rate: usize,
     pub shard: (usize, usize),
 }
 
 impl Cfg {
     pub fn from_extra(extra: &[String], max_args: usize) -> Cfg {
-        let mut c = Cfg { max_args, queries: vec!["SE".into(), "DC".into(), "DS".into()], certs: vec![false, true], exhaustive_n: None, large: false, faults: false, nopre: false, external: None, shard: (0, 1) };
+        let mut c = Cfg { max_args, queries: vec!["SE".into(), "DC".into(), "DS".into()], certs: vec![false, true], exhaustive_n: None, large: false, faults: false, nopre: false, external: None, ext_rate: 8, shard: (0, 1) };
         let mut i = 0;
         while i < extra.len() {
             match extra[i].as_str() {
@@ -368,6 +370,7 @@ impl Cfg {
                 "--faults" => { c.faults = true; i += 1 }
                 "--nopre" => { c.nopre = true; i += 1 }
                 "--external" => { c.external = Some(extra[i + 1].clone()); i += 2 }
+                "--external-rate" => { c.ext_rate = extra[i + 1].parse().unwrap(); i += 2 }
                 "--shard" => { let t: Vec<usize> = extra[i + 1].split('/').map(|x| x.parse().unwrap()).collect(); c.shard = (t[0], t[1]); i += 2 }
                 _ => i += 1,
             }
@@ -490,11 +493,13 @@ pub fn run(rng: &mut Rng, count: usize, thorough: bool, cfg: &Cfg, out: &mut Out
                     } else { None };
                     // a small case in sixteen runs on the external verified solver printing partial models
                     let ext = match &cfg.external {
-                        Some(p) if !all && af.n_arguments() <= 6 && max_defender_product(&af) <= 16 && rng.chance(1, 16) => Some(p.clone()),
+                        Some(p) if !all && af.n_arguments() <= 8 && max_defender_product(&af) <= 16 && rng.chance(1, cfg.ext_rate.max(1)) => Some(p.clone()),
                         _ => None,
                     };
                     if let Some(p) = &ext {
-                        EXTERNAL_BACKEND.with(|b| *b.borrow_mut() = Some((p.clone(), vec!["--partial".to_string()])));
+                        // (half of them with the opposite decision polarity: small models, candidates grown step by step)
+                        let opt = if rng.chance(1, 2) { "--partial" } else { "--flip" };
+                        EXTERNAL_BACKEND.with(|b| *b.borrow_mut() = Some((p.clone(), vec![opt.to_string()])));
                     }
                     emit_case_pre(out, &g, &af, sem, q, *cert, enc, &args, Fault::None, pre);
                     if ext.is_some() {
